@@ -11,6 +11,8 @@ FAMILIES = [
 ] + [("md5", f) for f in ("base", "sse", "avx", "avx2", "avx512")
 ] + [("sm3", f) for f in ("base", "avx2", "avx512")]
 
+PUB = [(a, "pub") for a in ("sha1", "sha256", "sha512", "md5", "sm3")]
+
 BLOCK = {"sha1": 64, "sha256": 64, "sha512": 128, "md5": 64, "sm3": 64}
 
 
@@ -29,7 +31,9 @@ def len_class(alg, n):
     return "big"
 
 
-def run_one(drv, alg, fam, seed, nops, maxlen, reject_pct, poison=0, keep=False):
+def run_one(drv, alg, fam, seed, nops, maxlen, reject_pct, poison=0, keep=False, model=None):
+    if model is None:
+        model = fam != 'pub'
     d = vlib.scratch()
     tag = "%s_%s_%d_%d_%d" % (alg, fam, seed, reject_pct, poison)
     ops = os.path.join(d, "ops_" + tag)
@@ -44,12 +48,15 @@ def run_one(drv, alg, fam, seed, nops, maxlen, reject_pct, poison=0, keep=False)
         out["ops"] = 0
         out["hist"] = {}
         return out
-    with open(ops) as fh:
-        m = subprocess.run([vlib.MODEL_BIN], stdin=fh, capture_output=True, text=True)
     impl = [l for l in open(res).read().split("\n") if l]
     monitors = [l for l in impl if l.startswith("MONITOR")]
     impl_lines = [l for l in impl if not l.startswith("MONITOR") and not l.startswith("END")]
-    model_lines = [l for l in m.stdout.split("\n") if l]
+    if model:
+        with open(ops) as fh:
+            m = subprocess.run([vlib.MODEL_BIN], stdin=fh, capture_output=True, text=True)
+        model_lines = [l for l in m.stdout.split("\n") if l]
+    else:
+        model_lines = impl_lines
     oplines = open(ops).read().split("\n")
     diffs = []
     n = max(len(impl_lines), len(model_lines))
